@@ -419,7 +419,8 @@ class Cascade:
 
         # Combine outputs
         outputs = [r.output_signal for r in stage_results if r.status == StageStatus.COMPLETED]
-        final_output = outputs if outputs else None
+        # As in run(): an unsuccessful run releases no output
+        final_output = outputs if success and outputs else None
 
         total_time = (time.time() - start_time) * 1000
 
@@ -445,6 +446,28 @@ class Cascade:
     def _run_single_stage(self, stage: CascadeStage, input_signal: Any) -> StageResult:
         """Run a single stage."""
         start_time = time.time()
+
+        # A checkpoint guards its stage in the fork pattern too: closed or raising, the stage does not run
+        if stage.checkpoint:
+            try:
+                gate_open = stage.checkpoint(input_signal)
+            except Exception as e:
+                return StageResult(
+                    stage_name=stage.name,
+                    status=StageStatus.FAILED,
+                    input_signal=input_signal,
+                    output_signal=None,
+                    error=str(e),
+                    processing_time_ms=(time.time() - start_time) * 1000
+                )
+            if not gate_open:
+                return StageResult(
+                    stage_name=stage.name,
+                    status=StageStatus.BLOCKED,
+                    input_signal=input_signal,
+                    output_signal=None,
+                    processing_time_ms=(time.time() - start_time) * 1000
+                )
 
         try:
             output = stage.processor(input_signal)
